@@ -238,14 +238,18 @@ thread_local! {
 /// Installs the harness' counting panic hook (once per process).
 pub fn install_counting_hook() {
     static ONCE: std::sync::Once = std::sync::Once::new();
-    ONCE.call_once(|| {
-        std::panic::set_hook(Box::new(|info| {
-            HOOK_CALLS.with(|c| c.set(c.get() + 1));
-            if !HOOK_QUIET.with(std::cell::Cell::get) {
-                eprintln!("HARNESS PANIC: {info}");
-            }
-        }));
-    });
+    ONCE.call_once(force_install_counting_hook);
+}
+
+/// (re-)installs the counting hook unconditionally — needed after a run in which the runner itself
+/// panicked and therefore never restored the hook it had taken
+pub fn force_install_counting_hook() {
+    std::panic::set_hook(Box::new(|info| {
+        HOOK_CALLS.with(|c| c.set(c.get() + 1));
+        if !HOOK_QUIET.with(std::cell::Cell::get) {
+            eprintln!("HARNESS PANIC: {info}");
+        }
+    }));
 }
 
 /// C10 run-level monitor observation: (hook calls during the run, hook calls for one probe panic
@@ -257,6 +261,9 @@ pub fn run_with_hook_probe(
     HOOK_CALLS.with(|c| c.set(0));
     HOOK_QUIET.with(|q| q.set(true));
     let out = run(cfg, parser, scripts, rng);
+    if out.panicked.is_some() {
+        force_install_counting_hook();
+    }
     let during = HOOK_CALLS.with(std::cell::Cell::get);
     let _ = std::panic::catch_unwind(|| panic!("probe"));
     let after = HOOK_CALLS.with(std::cell::Cell::get) - during;
@@ -278,7 +285,10 @@ pub fn gen_attempts(rng: &mut Rng, idx: usize) -> Case {
         imp.push(attempt_impl_line(a));
     }
     // run-level sanity of the harness itself
-    if !out.ended || out.stuck {
+    if let Some(m) = &out.panicked {
+        req.push("harness.ended".to_owned());
+        imp.push(format!("!runner-panicked {}", hex(m)));
+    } else if !out.ended || out.stuck {
         req.push("harness.ended".to_owned());
         imp.push(format!("!run-did-not-end polls={}", out.polls));
     }
